@@ -617,11 +617,6 @@ pub fn run(ctx: &Ctx, rep: &mut Report) {
         let st = explore(|ch| gen(ch, &cfgs, &plan), |_, c| cases.push(c));
         rep.stats.add(&st);
     }
-    if ctx.replay.is_none() {
-        // the complete "<= 1 non-absent level" slice through the real pipeline
-        let inputs: Vec<crate::conform::Input> = cases.iter().filter(|c| c.opts.iter().filter(|o| **o != Opt::Absent).count() <= 1 && c.key_on.is_none()).map(|c| crate::conform::Input { entry: c.entry, attr: c.attr.clone(), item: c.item.clone() }).collect();
-        crate::conform::validate(rep, "c04p", &inputs);
-    }
     let evals = par_map(&cases, threads(), |_, c| evaluate(&cfgs[c.cfg], c, &templates));
     let mut distinct_where: BTreeSet<String> = BTreeSet::new();
     for (c, e) in cases.iter().zip(evals.iter()) {
@@ -693,4 +688,9 @@ pub fn run(ctx: &Ctx, rep: &mut Report) {
     rep.set("configurations", json!(cfgs.iter().map(|c| format!("{} ({} levels)", c.name, c.slots.len())).collect::<Vec<_>>()));
     rep.set("max_non_absent_levels", json!(plan.max_dev));
     rep.outcome_n("distinct_where_sets", distinct_where.len() as u64);
+    if ctx.replay.is_none() {
+        // the complete "<= 1 non-absent level" slice through the real pipeline
+        let inputs: Vec<crate::conform::Input> = cases.iter().filter(|c| c.opts.iter().filter(|o| **o != Opt::Absent).count() <= 1 && c.key_on.is_none()).map(|c| crate::conform::Input { entry: c.entry, attr: c.attr.clone(), item: c.item.clone() }).collect();
+        crate::conform::validate_or_die(rep, "c04p", &inputs);
+    }
 }
